@@ -371,6 +371,7 @@ V_PAYLOAD = [b"\x00\x01\xfe\xff" * 3, b"x", bytes(range(256)), b""]
 # application payload (args / kwargs)
 P_VALUES = [
     None, True, False, 0, 1, -1, MAX_ID, -MAX_ID, 2 ** 31, 2 ** 32, 1.5, -2.25, 1e300,
+    0.1, 21.7, -1e-5, 3.141592653589793,      # doubles that are not exactly representable in float32
     "", "a", "é", "\U0001F600\U00010000", "a\x18b", "line\nbreak\ttab", "\"q\\",
     b"", b"\x00\xff", bytes(range(256)),
     [], {}, [1, [2, [3, [4, []]]]], {"a": {"b": {"c": [1, {"d": None}]}}},
